@@ -40,7 +40,17 @@ func (m *Model) followerLoop() (root *ssa.Function, goSite ssa.Instruction, unit
 		return nil, nil, nil, Spawn{}
 	}
 	for _, sp := range m.Spawns() {
-		if !containsFn(m.DemoteUnits, sp.Fn) {
+		// started by a demote unit, or by a function its critical section was split into
+		inDemote := containsFn(m.DemoteUnits, sp.Fn)
+		spFn := sp.Fn
+		if !inDemote {
+			for _, u := range m.DemoteUnits {
+				if containsFn(m.bodyFns(u), topFunc(sp.Fn)) {
+					inDemote, spFn = true, u
+				}
+			}
+		}
+		if !inDemote {
 			continue
 		}
 		for _, t := range sp.Targets {
@@ -54,7 +64,7 @@ func (m *Model) followerLoop() (root *ssa.Function, goSite ssa.Instruction, unit
 						}
 					}
 				})
-				goSite, unit = sp.At, sp.Fn
+				goSite, unit = sp.At, spFn
 				goSpawn = sp
 			}
 		}
@@ -144,7 +154,7 @@ func checkC06(c *Ctx) {
 	for _, u := range m.DemoteUnits {
 		has := false
 		for _, sp := range m.Spawns() {
-			if sp.Fn != u {
+			if sp.Fn != u && !containsFn(m.bodyFns(u), topFunc(sp.Fn)) {
 				continue
 			}
 			for _, t := range sp.Targets {
